@@ -320,7 +320,7 @@ Proof. induction cs as [|c cs IH]; simpl; [reflexivity|]. simpl in IH. rewrite I
 
 Definition tag_is (r : Z) (x : ev) : Prop :=
   match x with
-  | EEnter r' _ | ENext r' _ _ | EFin r' _ | ERaise r' _ | EAbort r' _ | EEscape r' => r' = r
+  | EEnter r' _ | ENext r' _ _ | EFin r' _ | ERaise r' _ | EAbort r' _ | EEscape r' | EDeadlock r' => r' = r
   | _ => False
   end.
 
@@ -333,13 +333,13 @@ Proof.
 Qed.
 
 (* behaviours of the shipped modules make at most one call *)
-Lemma calls_bound e fwd live prov half k :
-  (length (calls_of (entry_beh e fwd live prov half k)) <= maxcalls k)%nat.
+Lemma calls_bound e fwd live bound prov half k :
+  (length (calls_of (entry_beh e fwd live bound prov half k)) <= maxcalls k)%nat.
 Proof.
   destruct k as [[c1 p1] [c2 p2]| | |]; simpl.
   - destruct fwd; simpl; lia.
   - destruct fwd; simpl; lia.
-  - destruct fwd; [destruct (info_ok e), (listen_ok e) | destruct live]; simpl; lia.
+  - destruct fwd; [destruct (info_ok e), (listen_ok e bound) | destruct live]; simpl; lia.
   - destruct fwd;
       [destruct (e_enable e), (new_ok e), (init_ok e), (fetch_ok e), (watch_ok e), (register_ok e), (keepalive_ok e)
       | destruct prov, half, (delete_ok e)]; simpl; lia.
@@ -351,8 +351,25 @@ Proof.
   specialize (IH H). lia.
 Qed.
 
+(* the three outcomes of a completion callback: nothing accepted, stuck behind the lock, suspended *)
+Lemma on_callback_cases e locked r fwd s wl evs k :
+  on_callback e locked r fwd s wl evs k = k \/
+  (exists req, on_callback e locked r fwd s wl evs k = (with_dead s req, [], evs ++ [EDeadlock r])) \/
+  (exists req, on_callback e locked r fwd s wl evs k = (with_susp s wl req, [], evs)).
+Proof.
+  unfold on_callback. destruct (request e fwd) as [req|]; [|auto].
+  destruct (accepted (b_app s) req); [|auto]. destruct locked; eauto.
+Qed.
+
+Ltac split_callback H :=
+  match type of H with
+  | on_callback ?e ?l ?r ?f ?a ?b ?c ?k = _ =>
+      let K := fresh "K" in
+      destruct (on_callback_cases e l r f a b c k) as [K | [[?req K] | [?req K]]]; rewrite K in H; clear K
+  end.
+
 Section Run.
-  Variables (e : env) (r : Z) (fwd : bool).
+  Variables (e : env) (locked : bool) (r : Z) (fwd : bool).
 
   Definition near (idx : Z) : Prop := if fwd then 0 <= idx else idx <= nmods e - 1.
   Definition remaining (idx : Z) : list Z :=
@@ -429,7 +446,7 @@ Section Run.
   Definition Good (s : bst) (wl : list act) : Prop := near (b_idx s) /\ wl_ok wl.
 
   Lemma step_good s a wl s' wl' evs :
-    Good s (a :: wl) -> step e r fwd a s wl = (s', wl', evs) ->
+    Good s (a :: wl) -> step e locked r fwd a s wl = (s', wl', evs) ->
     Good s' wl' /\ (phi (b_idx s') wl' < phi (b_idx s) (a :: wl))%nat /\ Forall (tag_is r) evs.
   Proof.
     intros [N W] H. unfold wl_ok in W. simpl in W. unfold step in H.
@@ -437,21 +454,28 @@ Section Run.
     - (* ADo *)
       destruct (past_end e fwd (b_idx s)) eqn:P.
       + destruct (finish_effect (e_mode e) fwd true (b_app s) (b_cleaned s)) as [[app cl] pan].
-        destruct pan.
-        * destruct (unwind r wl) as [wl1 x] eqn:U. inv H. simpl.
-          destruct (unwind_spec _ _ _ U) as (A & B & C).
-          split; [split; [exact N | apply no_do_tl; auto]|].
-          split.
-          -- unfold phi. rewrite (slot_no_do _ _ (A W)). unfold slot. simpl. rewrite P. simpl. lia.
-          -- repeat constructor. destruct C as [[i ->] | ->]; reflexivity.
-        * inv H. simpl.
-          split; [split; [exact N | apply no_do_tl; auto]|].
-          split.
-          -- unfold phi. rewrite (slot_no_do _ _ W). unfold slot. simpl. rewrite P. simpl. lia.
+        split_callback H.
+        * destruct pan.
+          -- destruct (unwind r wl) as [wl1 x] eqn:U. inv H. simpl.
+             destruct (unwind_spec _ _ _ U) as (A & B & C).
+             split; [split; [exact N | apply no_do_tl; auto]|].
+             split.
+             ++ unfold phi. rewrite (slot_no_do _ _ (A W)). unfold slot. simpl. rewrite P. simpl. lia.
+             ++ repeat constructor. destruct C as [[i ->] | ->]; reflexivity.
+          -- inv H. simpl.
+             split; [split; [exact N | apply no_do_tl; auto]|].
+             split.
+             ++ unfold phi. rewrite (slot_no_do _ _ W). unfold slot. simpl. rewrite P. simpl. lia.
+             ++ repeat constructor.
+        * inv H. simpl. split; [split; [exact N | reflexivity]|]. split.
+          -- unfold phi, slot. simpl. rewrite P. simpl. lia.
+          -- repeat constructor.
+        * inv H. simpl. split; [split; [exact N | reflexivity]|]. split.
+          -- unfold phi, slot. simpl. rewrite P. simpl. lia.
           -- repeat constructor.
       + destruct (in_range _ N P) as [R L]. rewrite R in H. inv H. simpl.
         set (k := nth (Z.to_nat (b_idx s)) (e_mods e) KWelcome).
-        set (bh := entry_beh e fwd (b_live s) (zmem (b_idx s) (b_prov s)) (zmem (b_idx s) (b_half s)) k).
+        set (bh := entry_beh e fwd (b_live s) (b_bound s) (zmem (b_idx s) (b_prov s)) (zmem (b_idx s) (b_half s)) k).
         split; [split; [exact N | apply no_do_tl, no_do_calls; exact W]|].
         split.
         * unfold phi. rewrite sumwt_calls. unfold slot at 1. rewrite head_do_calls. simpl andb. cbv iota.
@@ -474,11 +498,18 @@ Section Run.
                        <= left_of (b_idx s) * weight e)%nat) by (apply Nat.mul_le_mono_r; exact LA).
           simpl sumwt. rewrite Nat.add_0_r. lia.
         * repeat constructor.
-      + inv H.
-        split; [split; [exact N | apply no_do_tl; exact W]|].
-        split.
-        * unfold phi. rewrite (slot_no_do _ _ W). unfold slot. simpl. lia.
-        * repeat constructor.
+      + split_callback H.
+        * inv H.
+          split; [split; [exact N | apply no_do_tl; exact W]|].
+          split.
+          -- unfold phi. rewrite (slot_no_do _ _ W). unfold slot. simpl. lia.
+          -- repeat constructor.
+        * inv H. simpl. split; [split; [exact N | reflexivity]|]. split.
+          -- unfold phi, slot. simpl. lia.
+          -- repeat constructor.
+        * inv H. simpl. split; [split; [exact N | reflexivity]|]. split.
+          -- unfold phi, slot. simpl. lia.
+          -- repeat constructor.
     - (* AEnd *)
       inv H.
       split; [split; [exact N | apply no_do_tl; exact W]|].
@@ -493,9 +524,9 @@ Section Run.
   (* generic preservation principle: enough fuel, so only [step]s happen *)
   Lemma exec_preserves (I : bst -> list act -> list ev -> Prop) :
     (forall s a wl acc s' wl' evs, Good s (a :: wl) -> I s (a :: wl) acc ->
-        step e r fwd a s wl = (s', wl', evs) -> I s' wl' (acc ++ evs)) ->
+        step e locked r fwd a s wl = (s', wl', evs) -> I s' wl' (acc ++ evs)) ->
     forall f s wl acc s' evs, (phi (b_idx s) wl <= f)%nat -> Good s wl -> I s wl acc ->
-        exec e r fwd f s wl = (s', evs) -> I s' [] (acc ++ evs).
+        exec e locked r fwd f s wl = (s', evs) -> I s' [] (acc ++ evs).
   Proof.
     intro HS. induction f as [|f IH]; intros s wl acc s' evs F G HI H.
     - destruct wl as [|a wl].
@@ -504,15 +535,15 @@ Section Run.
     - destruct wl as [|a wl].
       + simpl in H. inv H. rewrite app_nil_r. exact HI.
       + simpl in H.
-        destruct (step e r fwd a s wl) as [[s1 wl1] e1] eqn:E1.
-        destruct (exec e r fwd f s1 wl1) as [s2 e2] eqn:E2. inv H.
+        destruct (step e locked r fwd a s wl) as [[s1 wl1] e1] eqn:E1.
+        destruct (exec e locked r fwd f s1 wl1) as [s2 e2] eqn:E2. inv H.
         destruct (step_good _ _ _ _ _ _ G E1) as (G1 & D & _).
         rewrite app_assoc. apply (IH s1 wl1 (acc ++ e1) s' e2); [lia | exact G1 | | exact E2].
         exact (HS s a wl acc s1 wl1 e1 G HI E1).
   Qed.
 
   Lemma exec_tagged f s wl s' evs :
-    (phi (b_idx s) wl <= f)%nat -> Good s wl -> exec e r fwd f s wl = (s', evs) ->
+    (phi (b_idx s) wl <= f)%nat -> Good s wl -> exec e locked r fwd f s wl = (s', evs) ->
     Forall (tag_is r) evs /\ near (b_idx s').
   Proof.
     intros F G H.
@@ -558,7 +589,7 @@ Section Run.
 
   Lemma step_link s a wl acc s' wl' evs :
     Good s (a :: wl) -> Link (proj r acc) (b_idx s) (a :: wl) ->
-    step e r fwd a s wl = (s', wl', evs) -> Link (proj r (acc ++ evs)) (b_idx s') wl'.
+    step e locked r fwd a s wl = (s', wl', evs) -> Link (proj r (acc ++ evs)) (b_idx s') wl'.
   Proof.
     intros [N W] L H. unfold wl_ok in W. simpl in W. rewrite proj_app. unfold step in H.
     destruct a as [|i b|i p].
@@ -567,11 +598,14 @@ Section Run.
       + assert (exists x, evs = EFin r true :: x /\ proj r x = [] /\ no_do wl' = true /\ b_idx s' = b_idx s)
           as (x & -> & Px & Nd & Ei).
         { destruct (finish_effect (e_mode e) fwd true (b_app s) (b_cleaned s)) as [[app cl] pan].
-          destruct pan.
-          - destruct (unwind r wl) as [wl1 x] eqn:U.
-            destruct (unwind_spec _ _ _ U) as (A & _ & C). inv H.
-            exists [x]. repeat split; auto.
-            destruct C as [[i ->] | ->]; reflexivity.
+          split_callback H.
+          - destruct pan.
+            + destruct (unwind r wl) as [wl1 x] eqn:U.
+              destruct (unwind_spec _ _ _ U) as (A & _ & C). inv H.
+              exists [x]. repeat split; auto.
+              destruct C as [[i ->] | ->]; reflexivity.
+            + inv H. exists []. repeat split; auto.
+          - inv H. exists [EDeadlock r]. repeat split; auto.
           - inv H. exists []. repeat split; auto. }
         rewrite Ei. eapply link_extend; [exact L|].
         intros q P0 P1 A M -> HP.
@@ -607,17 +641,20 @@ Section Run.
           destruct M as (M1 & M2 & _). subst c rest. simpl. rewrite Z.eqb_refl.
           eexists. split; [reflexivity|]. simpl. auto.
         * simpl in HP. discriminate.
-      + inv H.
+      + assert (exists x, evs = ENext r i false :: EFin r false :: x /\ proj r x = [] /\ no_do wl' = true /\ b_idx s' = b_idx s)
+          as (x & -> & Px & Nd & Ei).
+        { split_callback H; inv H; [exists [] | exists [EDeadlock r] | exists []]; repeat split; auto. }
+        rewrite Ei.
         eapply link_extend; [exact L|].
         intros q P0 P1 A M -> HP.
-        change (proj r [ENext r i false; EFin r false])
-          with (proj_one r (ENext r i false) ++ proj_one r (EFin r false) ++ []) in *.
-        rewrite projone_self_next, projone_self_fin in *. simpl app in *.
+        change (proj r (ENext r i false :: EFin r false :: x))
+          with (proj_one r (ENext r i false) ++ proj_one r (EFin r false) ++ proj r x) in *.
+        rewrite projone_self_next, projone_self_fin, Px in *. simpl app in *.
         destruct q as [rest|c rest| |]; simpl in M; try contradiction.
         * destruct M as [_ M]. discriminate.
         * simpl in HP. destruct (Z.eqb_spec i c) as [E0|NE]; [subst i | discriminate].
           simpl. rewrite Z.eqb_refl.
-          eexists. split; [reflexivity|]. simpl. apply no_do_head. exact W.
+          eexists. split; [reflexivity|]. simpl. apply no_do_head. exact Nd.
         * simpl in HP. discriminate.
     - (* AEnd *)
       inv H.
@@ -634,7 +671,7 @@ Section Run.
 
   Lemma exec_link f s wl acc s' evs :
     (phi (b_idx s) wl <= f)%nat -> Good s wl -> Link (proj r acc) (b_idx s) wl ->
-    exec e r fwd f s wl = (s', evs) -> Link (proj r (acc ++ evs)) (b_idx s') [].
+    exec e locked r fwd f s wl = (s', evs) -> Link (proj r (acc ++ evs)) (b_idx s') [].
   Proof.
     intros F G L H.
     refine (exec_preserves (fun s wl acc => Link (proj r acc) (b_idx s) wl) _ f s wl acc s' evs F G L H).
@@ -663,25 +700,28 @@ Proof.
 Qed.
 
 Section Run2.
-  Variables (e : env) (r : Z) (fwd : bool).
+  Variables (e : env) (locked : bool) (r : Z) (fwd : bool).
 
   Lemma step_cases s a wl s' wl' evs :
-    Good e fwd s (a :: wl) -> step e r fwd a s wl = (s', wl', evs) ->
+    Good e fwd s (a :: wl) -> step e locked r fwd a s wl = (s', wl', evs) ->
     (a = ADo /\ past_end e fwd (b_idx s) = true /\ proj r evs = [TFin true] /\ b_idx s' = b_idx s /\ no_do wl' = true) \/
     (a = ADo /\ past_end e fwd (b_idx s) = false /\ proj r evs = [TEnter (b_idx s)] /\ b_idx s' = b_idx s /\ no_do wl' = true) \/
     (exists i, a = ANx i true /\ proj r evs = [TNext i true] /\ b_idx s' = advance fwd (b_idx s) /\ wl' = ADo :: wl) \/
-    (exists i, a = ANx i false /\ proj r evs = [TNext i false; TFin false] /\ b_idx s' = b_idx s /\ wl' = wl) \/
+    (exists i, a = ANx i false /\ proj r evs = [TNext i false; TFin false] /\ b_idx s' = b_idx s /\ no_do wl' = true) \/
     (exists i p, a = AEnd i p /\ proj r evs = [] /\ b_idx s' = b_idx s /\ wl' = wl).
   Proof.
     intros [N W] H. unfold wl_ok in W. simpl in W. unfold step in H.
     destruct a as [|i b|i p].
     - destruct (past_end e fwd (b_idx s)) eqn:P.
       + left. destruct (finish_effect (e_mode e) fwd true (b_app s) (b_cleaned s)) as [[app cl] pan].
-        destruct pan.
-        * destruct (unwind r wl) as [wl1 x] eqn:U.
-          destruct (unwind_spec _ _ _ _ U) as (A & _ & C). inv H.
-          repeat split; auto. unfold proj. simpl. rewrite Z.eqb_refl.
-          destruct C as [[i ->] | ->]; reflexivity.
+        split_callback H.
+        * destruct pan.
+          -- destruct (unwind r wl) as [wl1 x] eqn:U.
+             destruct (unwind_spec _ _ _ _ U) as (A & _ & C). inv H.
+             repeat split; auto. unfold proj. simpl. rewrite Z.eqb_refl.
+             destruct C as [[i ->] | ->]; reflexivity.
+          -- inv H. repeat split; auto. unfold proj. simpl. rewrite Z.eqb_refl. reflexivity.
+        * inv H. repeat split; auto. unfold proj. simpl. rewrite Z.eqb_refl. reflexivity.
         * inv H. repeat split; auto. unfold proj. simpl. rewrite Z.eqb_refl. reflexivity.
       + right. left. destruct (in_range _ _ _ N P) as [R _]. rewrite R in H. inv H.
         repeat split; auto.
@@ -690,8 +730,8 @@ Section Run2.
     - destruct b.
       + right. right. left. inv H. exists i. repeat split; auto.
         unfold proj. simpl. rewrite Z.eqb_refl. reflexivity.
-      + right. right. right. left. inv H. exists i. repeat split; auto.
-        unfold proj. simpl. rewrite Z.eqb_refl. reflexivity.
+      + right. right. right. left. exists i.
+        split_callback H; inv H; repeat split; auto; unfold proj; simpl; rewrite Z.eqb_refl; reflexivity.
     - right. right. right. right. inv H. exists i, p. repeat split; auto.
       destruct p; reflexivity.
   Qed.
@@ -702,13 +742,13 @@ Section Run2.
 
   Lemma step_acct s a wl acc s' wl' evs :
     Good e fwd s (a :: wl) -> Acct (proj r acc) (a :: wl) ->
-    step e r fwd a s wl = (s', wl', evs) -> Acct (proj r (acc ++ evs)) wl'.
+    step e locked r fwd a s wl = (s', wl', evs) -> Acct (proj r (acc ++ evs)) wl'.
   Proof.
     intros G A H. pose proof G as [_ W]. unfold wl_ok in W. simpl in W.
     unfold Acct in *. rewrite proj_app, entered_app, fins_app, outcomes_app, !app_length.
     destruct (step_cases _ _ _ _ _ _ G H) as
       [(-> & _ & -> & _ & Nd) | [(-> & _ & -> & _ & Nd) | [(i & -> & -> & _ & ->) |
-       [(i & -> & -> & _ & ->) | (i & p & -> & -> & _ & ->)]]]]; simpl in *;
+       [(i & -> & -> & _ & Nd) | (i & p & -> & -> & _ & ->)]]]]; simpl in *;
       try rewrite (no_do_head _ Nd); try rewrite (no_do_head _ W); simpl; lia.
   Qed.
 
@@ -721,13 +761,13 @@ Section Run2.
 
   Lemma step_mono s a wl acc s' wl' evs :
     Good e fwd s (a :: wl) -> Mono (proj r acc) (b_idx s) (a :: wl) ->
-    step e r fwd a s wl = (s', wl', evs) -> Mono (proj r (acc ++ evs)) (b_idx s') wl'.
+    step e locked r fwd a s wl = (s', wl', evs) -> Mono (proj r (acc ++ evs)) (b_idx s') wl'.
   Proof.
     intros G [M1 M2] H. pose proof G as [_ W]. unfold wl_ok in W. simpl in W.
     unfold Mono. rewrite proj_app, entered_app.
     destruct (step_cases _ _ _ _ _ _ G H) as
       [(-> & _ & -> & -> & Nd) | [(-> & _ & -> & -> & Nd) | [(i & -> & -> & -> & ->) |
-       [(i & -> & -> & -> & ->) | (i & p & -> & -> & -> & ->)]]]]; simpl entered; simpl head_do in *;
+       [(i & -> & -> & -> & Nd) | (i & p & -> & -> & -> & ->)]]]]; simpl entered; simpl head_do in *;
       rewrite ?app_nil_r.
     - split; [exact M1|]. intros x Hx. specialize (M2 x Hx). rewrite (no_do_head _ Nd).
       destruct fwd; lia.
@@ -737,7 +777,7 @@ Section Run2.
         * specialize (M2 x Hx). destruct fwd; lia.
         * destruct fwd; lia.
     - split; [exact M1|]. intros x Hx. specialize (M2 x Hx). unfold advance. destruct fwd; lia.
-    - split; [exact M1|]. intros x Hx. specialize (M2 x Hx). rewrite (no_do_head _ W). exact M2.
+    - split; [exact M1|]. intros x Hx. specialize (M2 x Hx). rewrite (no_do_head _ Nd). exact M2.
     - split; [exact M1|]. intros x Hx. specialize (M2 x Hx). rewrite (no_do_head _ W). exact M2.
   Qed.
 
@@ -747,10 +787,10 @@ Section Run2.
 
   Lemma exec_runinv f s wl acc s' evs :
     (phi e fwd (b_idx s) wl <= f)%nat -> Good e fwd s wl -> RunInv (proj r acc) (b_idx s) wl ->
-    exec e r fwd f s wl = (s', evs) -> RunInv (proj r (acc ++ evs)) (b_idx s') [].
+    exec e locked r fwd f s wl = (s', evs) -> RunInv (proj r (acc ++ evs)) (b_idx s') [].
   Proof.
     intros F G L H.
-    refine (exec_preserves e r fwd (fun s wl acc => RunInv (proj r acc) (b_idx s) wl) _ f s wl acc s' evs F G L H).
+    refine (exec_preserves e locked r fwd (fun s wl acc => RunInv (proj r acc) (b_idx s) wl) _ f s wl acc s' evs F G L H).
     intros s0 a wl0 acc0 s1 wl1 evs1 G0 (A & B & C) E. split; [|split].
     - eapply step_link; eauto.
     - eapply step_acct; eauto.
@@ -797,7 +837,7 @@ Qed.
 
 Definition tag_lt (k : Z) (x : ev) : Prop :=
   match x with
-  | EEnter r _ | ENext r _ _ | EFin r _ | ERaise r _ | EAbort r _ | EEscape r => 0 <= r < k
+  | EEnter r _ | ENext r _ _ | EFin r _ | ERaise r _ | EAbort r _ | EEscape r | EDeadlock r => 0 <= r < k
   | _ => False
   end.
 
@@ -823,10 +863,10 @@ Definition caps_ok (caps : list (Z * Z)) : Prop := Forall (fun c => 0 <= fst c) 
 
 Lemma exec_caps e r fwd f s wl s' evs :
   0 <= r -> (phi e fwd (b_idx s) wl <= f)%nat -> Good e fwd s wl -> caps_ok (b_caps s) ->
-  exec e r fwd f s wl = (s', evs) -> caps_ok (b_caps s').
+  exec e locked r fwd f s wl = (s', evs) -> caps_ok (b_caps s').
 Proof.
   intros R F G C H.
-  refine (exec_preserves e r fwd (fun s _ _ => caps_ok (b_caps s)) _ f s wl [] s' evs F G C H).
+  refine (exec_preserves e locked r fwd (fun s _ _ => caps_ok (b_caps s)) _ f s wl [] s' evs F G C H).
   intros s0 a wl0 acc s1 wl1 evs1 G0 C0 E. unfold step in E.
   destruct a as [|i b|i p].
   - destruct (past_end e fwd (b_idx s0)).
@@ -878,7 +918,7 @@ Lemma burst_inv e g log r fwd idx0 idx wl g' evs :
 Proof.
   intros R CK T O Hn N W F L H. unfold burst in H.
   set (s0 := {| b_idx := idx; b_app := s_app g; b_cleaned := s_cleaned g; b_live := s_live g; b_prov := s_prov g; b_half := s_half g; b_caps := s_caps g |}) in *.
-  destruct (exec e r fwd (fuel_for e) s0 wl) as [s1 evs1] eqn:E. inv H. simpl.
+  destruct (exec e locked r fwd (fuel_for e) s0 wl) as [s1 evs1] eqn:E. inv H. simpl.
   assert (G0 : Good e fwd s0 wl) by (split; assumption).
   destruct (exec_tagged e r fwd (fuel_for e) s0 wl s1 evs F G0 E) as [TG N1].
   pose proof (exec_runinv e r fwd (fuel_for e) s0 wl log s1 evs F G0 L E) as L1.
@@ -1065,12 +1105,12 @@ Lemma n_fin_true_app t1 t2 : n_fin_true (t1 ++ t2) = (n_fin_true t1 + n_fin_true
 Proof. unfold n_fin_true. rewrite fins_app, filter_app, app_length. reflexivity. Qed.
 
 Section RunApp.
-  Variables (e : env) (r : Z) (fwd : bool).
+  Variables (e : env) (locked : bool) (r : Z) (fwd : bool).
 
   Definition app_started (a : Z) : Prop := a <> 0 /\ a <> 1.
 
   Lemma step_app s a wl s' wl' evs :
-    step e r fwd a s wl = (s', wl', evs) ->
+    step e locked r fwd a s wl = (s', wl', evs) ->
     (app_started (b_app s) -> app_started (b_app s')) /\
     (b2n (Z.eqb (b_app s') 3) <= b2n (Z.eqb (b_app s) 3) + (if fwd then n_fin_true (proj r evs) else 0))%nat.
   Proof.
@@ -1092,12 +1132,12 @@ Section RunApp.
   Qed.
 
   Lemma exec_app f s wl s' evs :
-    (phi e fwd (b_idx s) wl <= f)%nat -> Good e fwd s wl -> exec e r fwd f s wl = (s', evs) ->
+    (phi e fwd (b_idx s) wl <= f)%nat -> Good e fwd s wl -> exec e locked r fwd f s wl = (s', evs) ->
     (app_started (b_app s) -> app_started (b_app s')) /\
     (b2n (Z.eqb (b_app s') 3) <= b2n (Z.eqb (b_app s) 3) + (if fwd then n_fin_true (proj r evs) else 0))%nat.
   Proof.
     intros F G H.
-    refine (exec_preserves e r fwd
+    refine (exec_preserves e locked r fwd
               (fun s1 _ acc => (app_started (b_app s) -> app_started (b_app s1)) /\
                  (b2n (Z.eqb (b_app s1) 3) <= b2n (Z.eqb (b_app s) 3) + (if fwd then n_fin_true (proj r acc) else 0))%nat)
               _ f s wl [] s' evs F G _ H).
@@ -1117,7 +1157,7 @@ Lemma burst_app e g r fwd idx wl g' evs :
 Proof.
   intros N W F H. unfold burst in H.
   set (s0 := {| b_idx := idx; b_app := s_app g; b_cleaned := s_cleaned g; b_live := s_live g; b_prov := s_prov g; b_half := s_half g; b_caps := s_caps g |}) in *.
-  destruct (exec e r fwd (fuel_for e) s0 wl) as [s1 evs1] eqn:E. inv H. simpl.
+  destruct (exec e locked r fwd (fuel_for e) s0 wl) as [s1 evs1] eqn:E. inv H. simpl.
   assert (G0 : Good e fwd s0 wl) by (split; assumption).
   destruct (exec_app e r fwd (fuel_for e) s0 wl s1 evs F G0 E) as [A B].
   split; [eexists; reflexivity|]. split; [exact A | exact B].
@@ -1597,7 +1637,7 @@ Section Calls.
   Lemma step_ci F r fwd s a wl acc s' wl' evs :
     dir_at df r = Some fwd ->
     Good e fwd s (a :: wl) -> CI F r s (a :: wl) acc ->
-    step e r fwd a s wl = (s', wl', evs) -> CI F r s' wl' (acc ++ evs).
+    step e locked r fwd a s wl = (s', wl', evs) -> CI F r s' wl' (acc ++ evs).
   Proof.
     intros HD [N W] HC H. pose proof HC as (C1 & C2 & C3 & C4). simpl tl in C3. unfold step in H.
     destruct a as [|i b|i p].
@@ -1687,10 +1727,10 @@ Section Calls.
   Lemma exec_ci F r fwd f s wl acc s' evs :
     dir_at df r = Some fwd ->
     (phi e fwd (b_idx s) wl <= f)%nat -> Good e fwd s wl -> CI F r s wl acc ->
-    exec e r fwd f s wl = (s', evs) -> CI F r s' [] (acc ++ evs).
+    exec e locked r fwd f s wl = (s', evs) -> CI F r s' [] (acc ++ evs).
   Proof.
     intros HD Fu G C H.
-    refine (exec_preserves e r fwd (fun s wl acc => CI F r s wl acc) _ f s wl acc s' evs Fu G C H).
+    refine (exec_preserves e locked r fwd (fun s wl acc => CI F r s wl acc) _ f s wl acc s' evs Fu G C H).
     intros. eapply step_ci; eauto.
   Qed.
 
@@ -1712,7 +1752,7 @@ Section Calls.
   Proof.
     intros HD N W Fu HO (C1 & C2 & C3) H. unfold burst in H.
     set (s0 := {| b_idx := idx; b_app := s_app g; b_cleaned := s_cleaned g; b_live := s_live g; b_prov := s_prov g; b_half := s_half g; b_caps := s_caps g |}) in *.
-    destruct (exec e r fwd (fuel_for e) s0 wl) as [s1 evs1] eqn:E. inv H.
+    destruct (exec e locked r fwd (fuel_for e) s0 wl) as [s1 evs1] eqn:E. inv H.
     assert (G0 : Good e fwd s0 wl) by (split; assumption).
     assert (I0 : CI (F + (if Z.eqb r r0 then cnt i0 wl else 0)) r s0 wl log).
     { split; [exact C1|]. split; [exact C2|]. split; [exact HO|]. intro U. specialize (C3 U). lia. }
@@ -1739,7 +1779,7 @@ Section Calls.
     exists idx', nth_error (s_runs g') (Z.to_nat r) = Some (fwd, idx').
   Proof.
     intros L H. unfold burst in H.
-    destruct (exec e r fwd (fuel_for e) _ wl) as [s1 evs1]. inv H. simpl.
+    destruct (exec e locked r fwd (fuel_for e) _ wl) as [s1 evs1]. inv H. simpl.
     eexists. apply nth_error_upd_same. exact L.
   Qed.
 
@@ -1762,11 +1802,11 @@ Section Calls.
   Qed.
 
   Lemma exec_fire_nonempty r fwd f s i b wl s' evs :
-    exec e r fwd (S f) s (ANx i b :: wl) = (s', evs) -> exists x l, evs = x :: l.
+    exec e locked r fwd (S f) s (ANx i b :: wl) = (s', evs) -> exists x l, evs = x :: l.
   Proof.
     simpl. destruct b.
-    - destruct (exec e r fwd f _ (ADo :: wl)) as [s2 e2]. intro H. inv H. eauto.
-    - destruct (exec e r fwd f s wl) as [s2 e2]. intro H. inv H. eauto.
+    - destruct (exec e locked r fwd f _ (ADo :: wl)) as [s2 e2]. intro H. inv H. eauto.
+    - destruct (exec e locked r fwd f s wl) as [s2 e2]. intro H. inv H. eauto.
   Qed.
 
   Lemma do_op_cg g log F o g' evs :
@@ -1796,7 +1836,7 @@ Section Calls.
       assert (HD : dir_at df r = Some fwd).
       { unfold dir_at. destruct (Z.ltb_spec r 0); [lia|]. exact (D _ _ _ Hr'). }
       assert (NE : exists x l, evs = x :: l).
-      { unfold burst in H. destruct (exec e r fwd (fuel_for e) _ [ANx i b]) as [s1 evs1] eqn:E. inv H.
+      { unfold burst in H. destruct (exec e locked r fwd (fuel_for e) _ [ANx i b]) as [s1 evs1] eqn:E. inv H.
         exact (exec_fire_nonempty r fwd (S (length (e_mods e) * weight e)) _ i b [] _ _ E). }
       destruct NE as (x & l & ->).
       assert (EQ : fire1 (OFire k b) (x :: l) (s_caps g) = (if Z.eqb r r0 then cnt i0 [ANx i b] else 0)%nat).
@@ -1822,7 +1862,7 @@ Section Calls.
     forall j f i, nth_error (s_runs g) j = Some (f, i) -> exists i', nth_error (s_runs g') j = Some (f, i').
   Proof.
     intros Hr H. unfold burst in H.
-    destruct (exec e r fwd (fuel_for e) _ wl) as [s1 evs1]. inv H. simpl.
+    destruct (exec e locked r fwd (fuel_for e) _ wl) as [s1 evs1]. inv H. simpl.
     eapply upd_dirs. exact Hr.
   Qed.
 
